@@ -124,7 +124,20 @@ func child(prop, tier string, sp spec, batch, of int, out string) {
 	if !raceEnabled {
 		e.Hooks = h.InstallHooks()
 	}
+	// partial results, in case the watchdog ends this process
+	stopSave := make(chan struct{})
+	go func() {
+		for {
+			select {
+			case <-stopSave:
+				return
+			case <-time.After(5 * time.Second):
+				r.Save(out + ".partial")
+			}
+		}
+	}()
 	sp.run(e)
+	close(stopSave)
 	if e.Hooks != nil {
 		for p, n := range e.Hooks.Points() {
 			r.Count("hook."+p, n)
@@ -201,6 +214,13 @@ func parent(prop, tier string, sp spec) int {
 			os.WriteFile(keep, []byte(logs), 0o644)
 			if timedOut {
 				total.Inconc(fmt.Sprintf("child %d hit the wall-clock watchdog (log: %s)", b, keep))
+				if pr, perr := report.Load(out + ".partial"); perr == nil {
+					// what the child had observed up to 5 s before it was stopped still counts
+					total.Merge(pr)
+					if len(pr.Violations) > 0 {
+						return
+					}
+				}
 				infra++
 				return
 			}
